@@ -150,6 +150,19 @@ def main():
     known = load_known()
     known_classes = {f['class']: f for f in known['findings'] if f['property'] == prop}
 
+    # 3b. source-derived obligations reported by the translator hook:
+    #     gen_info['obligations'] = [{'name':…, 'ok': bool, 'detail': str, 'class': optional known-finding label}]
+    gen_obl = list((gen_info or {}).get('obligations', [])) if isinstance(gen_info, dict) else []
+    if hasattr(mod, 'extra_obligations'):
+        gen_obl += list(mod.extra_obligations(sp, modelmod.LEAN_DIR) or [])
+    gen_failed_known = []
+    for o in gen_obl:
+        if not o.get('ok'):
+            if o.get('class') in known_classes:
+                gen_failed_known.append(o)
+            else:
+                obl['failed'].append('generated:%s: %s' % (o.get('name'), str(o.get('detail', ''))[:300]))
+
     # 4. correspondence: corpus first, then generated cases (or a single replay)
     rng = random.Random(seed * 1000003 + 17)
     specs = []
@@ -221,6 +234,8 @@ def main():
                     'build_log_tail': obl.get('build_log_tail', ''), 'seed': seed, 'tier': tier},
                    ' no-failing-input-found')
 
+    for o in gen_failed_known:
+        seen_known.setdefault(o['class'], {'obligation': o})
     for cls, r in seen_known.items():
         known_lines.append('KNOWN-FINDING: property=%s %s [%s]' % (prop, known_classes[cls]['what'], cls))
 
@@ -243,6 +258,8 @@ def main():
     n_ok = n_thm - len([f for f in obl['failed'] if f.startswith(('unchecked:', 'axioms:'))]) if obl['build_ok'] else 0
     if any(f.startswith(('forbidden:', 'build:', 'leanchecker:')) for f in obl['failed']):
         n_ok = 0
+    n_thm += len(gen_obl)
+    n_ok += len([o for o in gen_obl if o.get('ok')])
     samples = [{'model_line': r['line'][:600], 'impl': jdump(to_plain(r['impl']))[:300], 'model': val.enc(r['model'])[:300] if not isinstance(r['model'], str) else r['model']}
                for r in results[:: max(1, len(results) // 4)][:4]]
     ev = {
@@ -252,6 +269,7 @@ def main():
             'checker_cmd': 'cd lean && lake build Splipy.Properties.%s && lean (#print axioms of every theorem)%s' % (prop, ' && lake env leanchecker Splipy.Properties.' + prop if tier == 'thorough' else ''),
             'trusted_base': TRUSTED_BASE + list(getattr(mod, 'TRUSTED_EXTRA', [])),
             'theorems': obl['theorems'], 'axioms': obl['axioms'], 'failed_obligations': obl['failed'],
+            'generated_obligations': gen_obl,
             'partial_theorems': [t for t in obl['theorems'] if t.endswith('_partial')],
             'evaluations': len(results), 'distinct_nontrivial': len(nontrivial), 'distinct': len(keys),
             'rule': getattr(mod, 'RULE', 'cases generated by harness/props/%s.py from VERIF_SEED; distinct = distinct protocol lines; non-trivial per module rule' % prop),
